@@ -13,7 +13,8 @@ def analyse_redraw(crate, g, meth):
     st = State()
     args, objs = symbolic_args(ev, st, body)
     ret = ev.call_body(st, key, args)
-    recs = [r for r in ev.loops_log if r.body == key]
+    # the redraw loop may live in a private helper shared by from_rng and try_from_rng: every loop of the inlined evaluation counts
+    recs = list(ev.loops_log)
     return key, body, ev, st, ret, recs
 
 
